@@ -184,6 +184,12 @@ def audit(mod, allow_extra=()):
 # ---------------------------------------------------------------------------------------------
 # line protocol
 
+def _strip_replies(text):
+    """Replies of `run` are the stdout lines starting with `@@ ` (the code under test may print noise)."""
+    return [l[3:] for l in text.split("\n") if l.startswith("@@ ")]
+
+
+
 def run_model(cases_path, out_path):
     with open(cases_path) as fi, open(out_path, "w") as fo:
         p = subprocess.run([MODEL], stdin=fi, stdout=fo, stderr=subprocess.PIPE, text=True)
@@ -191,14 +197,25 @@ def run_model(cases_path, out_path):
 
 
 def run_impl(prop, cases_path, out_path, binary=None, timeout=3000):
-    with open(cases_path) as fi, open(out_path, "w") as fo:
+    raw = out_path + ".raw"
+    with open(cases_path) as fi, open(raw, "w") as fo:
         p = subprocess.run([binary or PV, prop, "run"], stdin=fi, stdout=fo, stderr=subprocess.PIPE, text=True, timeout=timeout)
+    with open(raw, errors="replace") as f, open(out_path, "w") as fo:
+        lines = _strip_replies(f.read())
+        fo.write("\n".join(lines) + ("\n" if lines else ""))
     return p.returncode == 0, p.stderr[-2000:]
 
 
 def gen_cases(prop, seed, tier, out_path, binary=None, extra=()):
-    with open(out_path, "w") as fo:
+    raw = out_path + ".raw"
+    with open(raw, "w") as fo:
         p = subprocess.run([binary or PV, prop, "gen", str(seed), tier] + list(extra), stdout=fo, stderr=subprocess.PIPE, text=True)
+    with open(raw, errors="replace") as f, open(out_path, "w") as fo:
+        text = f.read()
+        lines = _strip_replies(text)
+        if not lines:       # generators with their own command line print unprefixed case lines
+            lines = [l for l in text.split("\n") if l]
+        fo.write("\n".join(lines) + ("\n" if lines else ""))
     return p.returncode == 0, p.stderr[-2000:]
 
 
@@ -210,7 +227,7 @@ def model_lines(lines):
 
 def impl_lines(prop, lines, binary=None):
     p = subprocess.run([binary or PV, prop, "run"], input="\n".join(lines) + "\n", capture_output=True, text=True)
-    return p.stdout.split("\n")[: len(lines)]
+    return _strip_replies(p.stdout)[: len(lines)]
 
 
 def read_lines(p):
